@@ -3,12 +3,14 @@
 
 mod c13;
 mod c14;
+mod c14grid;
 mod c20;
 mod common;
 mod compile;
 mod conformance;
 mod entropy;
 mod gen;
+mod grid;
 mod group_sim;
 mod node;
 mod rng;
